@@ -265,6 +265,7 @@ pub fn movie_shell(tracks: Vec<Track>) -> Movie {
         last_to_eof: false,
         hdlr_name: None,
         moov_meta: None,
+        frag_mdhd_dur: 0,
     }
 }
 
@@ -469,6 +470,8 @@ pub fn frag_movie(max_tracks: usize, max_frags: usize, max_run: usize) -> impl S
             m.mehd = mehd;
             m.emsg = emsg;
             m.large_moof = large_moof;
+            // a third of the movies carry a non-zero media duration in the mdhd of fragmented tracks
+            m.frag_mdhd_dur = match m.mehd { Some((_, d)) if d % 3 == 0 => 1 + (d % 100_000) as u32, _ => 0 };
             m
         })
 }
